@@ -399,7 +399,10 @@ def hunt5_rules(chk, repo):
     else:
         keyed_by_route = any("route_obj.method" in norm.raw(a.targets[0].slice) or ".method" in norm.raw(a.targets[0].slice) for a in stores)
         key = norm.raw(gets[0].args[0])
-        if keyed_by_route and upper_in_route and ".upper()" not in key:
+        # the key may have been normalised in front of the lookup (`method = method.upper()`)
+        kd = [norm.raw(v) for _d, v in norm.fn_defs(ar.node).defs.get(key, []) if v is not None] if key.isidentifier() else []
+        pre = any(".upper()" in v for v in kd) and any(isinstance(a, ast.Assign) and norm.raw(a.targets[0]) == key and ".upper()" in norm.raw(a.value) and a.lineno < gets[0].lineno for a in ast.walk(ar.node))
+        if keyed_by_route and upper_in_route and ".upper()" not in key and not pre:
             chk.violation("C14.method.case", gets[0], K.short(gets[0]), "self._routes.get(method.upper(), ...)",
                           f"routes are stored under the upper-cased method (AbstractRoute.__init__) but the duplicate guard looks `{key}` up as it was written: `add_route('GET', '/x', first)` followed by `add_route('get', '/x', second)` passes the guard and silently replaces the first route - GET /x is answered by another handler than the one registered first")
         else:
